@@ -15,6 +15,23 @@ from . import terminology
 from .tools.doc_inherit import allow_inherit_docstring
 
 
+
+def list_position(position, length):
+    """
+    Returns the integer *position* limited to the range list.insert makes use of.
+    list.insert treats every position beyond the ends of a list like the end
+    itself, but refuses integers that do not fit into a machine word.
+
+    :param position: object usable as an index (TypeError otherwise).
+    :param length: length of the list the position refers to.
+    """
+    position = operator.index(position)
+    if position > length:
+        return length
+    if position < -length:
+        return -length
+    return position
+
 class BaseObject(object):
     """
     Base class for all odML objects.
@@ -288,7 +305,7 @@ class Sectionable(BaseObject):
         """
         from odml.section import BaseSection
         # Refuse a position that is not an integer before anything is changed.
-        position = operator.index(position)
+        position = list_position(position, len(self._sections))
 
         if isinstance(section, BaseSection):
             if section.name in self._sections:
